@@ -6,8 +6,12 @@ import Cellml.Tie.LoaderGen
 
     Subject: `Tie.GenA.genParse fd us` = the generated `Parser.parse` (`Gen.LoaderParse.parse`, stage order and the
     component-units refusal from the source text) run on a fresh parser state over the stages `Tie.GenA.genStages fd`,
-    which are themselves generated code (`_add_units`, `_add_components`, `_add_relationships`, `_add_connections`, the
-    symbol resolution of `_add_maths`, `transform_constants`: `Tie/LoaderStagesA…D.lean`, `genParse_tie`);
+    which are themselves generated code (`_add_units`, `_add_components`, `_add_relationships`, `_add_connections`, ALL
+    of `_add_maths` — its loops, the transpiler it constructs, the GENERATED `Model.add_equation` for every equation:
+    `Tie/MathsWalk.lean` —, `transform_constants`: `Tie/LoaderStagesA…D.lean`, `genParse_tie`);
+    hypothesis `BadWF fd`: the first bad equation of `fd.badEqs` (if any) sits in a component of the document and a
+    `nonvar` left-hand side is not a variable / derivative (python accepts those; `C17.badEqErr` refuses them) — it holds
+    by `rfl` for a concrete document and by `BadWF_of_nil` for one without bad equations;
     for the two work lists also the closed loops over the generated loop bodies (`Tie.GenA.genConnect`,
     `genConnectWhile`). Every `fault_rejected_*_gen` is the corollary of `Props.C17.fault_rejected_*` (the `_full`
     variant, about `C17.loadFull`) through `parse_tie`; the variants of `Props/C17.lean` about `Load.load` (sorted unit
@@ -16,10 +20,11 @@ import Cellml.Tie.LoaderGen
 open Load C17
 namespace Cellml.Props.C17Gen
 open Cellml.Tie Cellml.Tie.GenA Cellml.Gen
+open Cellml.Tie.PMathsWalk (BadWF BadWF_of_nil)
 
 /-- whatever `loadFull` refuses the generated `parse` refuses (with the class of `loadFull`'s error) -/
-theorem rejected_gen {fd : FaultDoc} (us : Option Unit) (h : ∃ e, loadFull fd = .error e) :
-    ∃ e, genParse fd us = .error e := (parse_isErr_iff fd us).mpr h
+theorem rejected_gen {fd : FaultDoc} (hw : BadWF fd = true) (us : Option Unit) (h : ∃ e, loadFull fd = .error e) :
+    ∃ e, genParse fd us = .error e := (parse_isErr_iff fd hw us).mpr h
 
 /-! ## 1. Both work lists terminate; loading is a total function -/
 
@@ -27,20 +32,20 @@ theorem rejected_gen {fd : FaultDoc} (us : Option Unit) (h : ∃ e, loadFull fd 
     `loadFull` returns — or raises; there is no third outcome (in particular no state without a model). The class
     raised is `genClass fd e'`: the class `load_model` shows for `loadFull`'s error (`C17.className e'`), except that an
     error of the unit work list keeps the class the generated `_add_units` raises (`genClass_of_units_ok`). -/
-theorem load_total_gen (fd : FaultDoc) (us : Option Unit) :
+theorem load_total_gen (fd : FaultDoc) (hw : BadWF fd = true) (us : Option Unit) :
     (∃ ps F, genParse fd us = .ok ps ∧ ps.flat = some F ∧ loadFull fd = .ok F) ∨
     (∃ e, genParse fd us = .error e ∧ ∃ e', loadFull fd = .error e' ∧ e = ⟨genClass fd e'⟩) := by
   rcases Cellml.Props.C17.load_total fd with ⟨F, hF⟩ | ⟨e, he⟩
   · left
-    have hp := (parse_ok_iff fd us F).mpr hF
+    have hp := (parse_ok_iff fd hw us F).mpr hF
     cases hg : genParse fd us with
     | error e => rw [hg] at hp; simp [Except.map] at hp
     | ok ps =>
-      obtain ⟨F', h1, h2⟩ := parse_ok_flat hg
+      obtain ⟨F', h1, h2⟩ := parse_ok_flat hw hg
       rw [hF] at h2; cases h2
       exact ⟨ps, F, rfl, h1, hF⟩
   · right
-    exact ⟨_, parse_error_of_loadFull us he, e, he, rfl⟩
+    exact ⟨_, parse_error_of_loadFull hw us he, e, he, rfl⟩
 
 /-- the connection work list, closed over the generated body (restated from `Props/C01Gen.lean`) -/
 theorem connect_terminates_gen (reg : Registry) (vt : VarTable) (l : List (VRef × VRef)) :
@@ -65,117 +70,117 @@ theorem connect_budget_gen (n : Nat) : 2 * stepBound n 0 = n * (n + 1) + 2 * n +
 
 /-! ## 2. One theorem per fault class: the class anywhere in the document ⇒ the generated `parse` raises -/
 
-theorem fault_rejected_missing_component_gen (fd : FaultDoc) (us : Option Unit) (h : MissingComponent fd.doc) :
+theorem fault_rejected_missing_component_gen (fd : FaultDoc) (hw : BadWF fd = true) (us : Option Unit) (h : MissingComponent fd.doc) :
     ∃ e, genParse fd us = .error e :=
-  rejected_gen us (Cellml.Props.C17.fault_rejected_missing_component_full fd h)
+  rejected_gen hw us (Cellml.Props.C17.fault_rejected_missing_component_full fd h)
 
-theorem fault_rejected_missing_variable_gen (fd : FaultDoc) (us : Option Unit) (h : MissingVariable fd.doc) :
+theorem fault_rejected_missing_variable_gen (fd : FaultDoc) (hw : BadWF fd = true) (us : Option Unit) (h : MissingVariable fd.doc) :
     ∃ e, genParse fd us = .error e :=
-  rejected_gen us (Cellml.Props.C17.fault_rejected_missing_variable_full fd h)
+  rejected_gen hw us (Cellml.Props.C17.fault_rejected_missing_variable_full fd h)
 
-theorem fault_rejected_both_sources_gen (fd : FaultDoc) (us : Option Unit) (h : BothSources fd.doc) :
+theorem fault_rejected_both_sources_gen (fd : FaultDoc) (hw : BadWF fd = true) (us : Option Unit) (h : BothSources fd.doc) :
     ∃ e, genParse fd us = .error e :=
-  rejected_gen us (Cellml.Props.C17.fault_rejected_both_sources_full fd h)
+  rejected_gen hw us (Cellml.Props.C17.fault_rejected_both_sources_full fd h)
 
-theorem fault_rejected_both_receivers_gen (fd : FaultDoc) (us : Option Unit) (h : BothReceivers fd.doc) :
+theorem fault_rejected_both_receivers_gen (fd : FaultDoc) (hw : BadWF fd = true) (us : Option Unit) (h : BothReceivers fd.doc) :
     ∃ e, genParse fd us = .error e :=
-  rejected_gen us (Cellml.Props.C17.fault_rejected_both_receivers_full fd h)
+  rejected_gen hw us (Cellml.Props.C17.fault_rejected_both_receivers_full fd h)
 
-theorem fault_rejected_no_direction_gen (fd : FaultDoc) (us : Option Unit) (h : NoDirection fd.doc) :
+theorem fault_rejected_no_direction_gen (fd : FaultDoc) (hw : BadWF fd = true) (us : Option Unit) (h : NoDirection fd.doc) :
     ∃ e, genParse fd us = .error e :=
-  rejected_gen us (Cellml.Props.C17.fault_rejected_no_direction_full fd h)
+  rejected_gen hw us (Cellml.Props.C17.fault_rejected_no_direction_full fd h)
 
-theorem fault_rejected_non_adjacent_gen (fd : FaultDoc) (us : Option Unit) (h : NonAdjacent fd.doc) :
+theorem fault_rejected_non_adjacent_gen (fd : FaultDoc) (hw : BadWF fd = true) (us : Option Unit) (h : NonAdjacent fd.doc) :
     ∃ e, genParse fd us = .error e :=
-  rejected_gen us (Cellml.Props.C17.fault_rejected_non_adjacent_full fd h)
+  rejected_gen hw us (Cellml.Props.C17.fault_rejected_non_adjacent_full fd h)
 
-theorem fault_rejected_incompatible_units_gen (fd : FaultDoc) (us : Option Unit)
+theorem fault_rejected_incompatible_units_gen (fd : FaultDoc) (hw : BadWF fd = true) (us : Option Unit)
     (h : ∀ reg ust, Units.addUnits 0 fd.udefs = .ok (reg, ust) → IncompatibleUnits reg ust fd.doc) :
     ∃ e, genParse fd us = .error e :=
-  rejected_gen us (Cellml.Props.C17.fault_rejected_incompatible_units_full fd h)
+  rejected_gen hw us (Cellml.Props.C17.fault_rejected_incompatible_units_full fd h)
 
-theorem fault_rejected_two_sources_gen (fd : FaultDoc) (us : Option Unit)
+theorem fault_rejected_two_sources_gen (fd : FaultDoc) (hw : BadWF fd = true) (us : Option Unit)
     (h : ∀ reg ust, Units.addUnits 0 fd.udefs = .ok (reg, ust) → TwoSources ust fd.doc) :
     ∃ e, genParse fd us = .error e :=
-  rejected_gen us (Cellml.Props.C17.fault_rejected_two_sources_full fd h)
+  rejected_gen hw us (Cellml.Props.C17.fault_rejected_two_sources_full fd h)
 
-theorem fault_rejected_defined_twice_direct_gen (fd : FaultDoc) (us : Option Unit) (h : DefinedTwiceDirect fd.doc) :
+theorem fault_rejected_defined_twice_direct_gen (fd : FaultDoc) (hw : BadWF fd = true) (us : Option Unit) (h : DefinedTwiceDirect fd.doc) :
     ∃ e, genParse fd us = .error e :=
-  rejected_gen us (Cellml.Props.C17.fault_rejected_defined_twice_direct_full fd h)
+  rejected_gen hw us (Cellml.Props.C17.fault_rejected_defined_twice_direct_full fd h)
 
-theorem fault_rejected_defined_twice_connected_gen (fd : FaultDoc) (us : Option Unit) (h : DefinedTwiceConnected fd.doc) :
+theorem fault_rejected_defined_twice_connected_gen (fd : FaultDoc) (hw : BadWF fd = true) (us : Option Unit) (h : DefinedTwiceConnected fd.doc) :
     ∃ e, genParse fd us = .error e :=
-  rejected_gen us (Cellml.Props.C17.fault_rejected_defined_twice_connected_full fd h)
+  rejected_gen hw us (Cellml.Props.C17.fault_rejected_defined_twice_connected_full fd h)
 
-theorem fault_rejected_init_and_equation_gen_partial (fd : FaultDoc) (us : Option Unit) (hno : NoOde fd.doc) (h : InitAndEquation fd.doc) :
+theorem fault_rejected_init_and_equation_gen_partial (fd : FaultDoc) (hw : BadWF fd = true) (us : Option Unit) (hno : NoOde fd.doc) (h : InitAndEquation fd.doc) :
     ∃ e, genParse fd us = .error e :=
-  rejected_gen us (Cellml.Props.C17.fault_rejected_init_and_equation_full_partial fd hno h)
+  rejected_gen hw us (Cellml.Props.C17.fault_rejected_init_and_equation_full_partial fd hno h)
 
-theorem fault_rejected_undefined_identifier_gen (fd : FaultDoc) (us : Option Unit) (h : UndefinedIdentifier fd.doc) :
+theorem fault_rejected_undefined_identifier_gen (fd : FaultDoc) (hw : BadWF fd = true) (us : Option Unit) (h : UndefinedIdentifier fd.doc) :
     ∃ e, genParse fd us = .error e :=
-  rejected_gen us (Cellml.Props.C17.fault_rejected_undefined_identifier_full fd h)
+  rejected_gen hw us (Cellml.Props.C17.fault_rejected_undefined_identifier_full fd h)
 
-theorem fault_rejected_undefined_unit_gen (fd : FaultDoc) (us : Option Unit) (h : UndefinedUnitName (fd.udefs.map (·.name)) fd.doc) :
+theorem fault_rejected_undefined_unit_gen (fd : FaultDoc) (hw : BadWF fd = true) (us : Option Unit) (h : UndefinedUnitName (fd.udefs.map (·.name)) fd.doc) :
     ∃ e, genParse fd us = .error e :=
-  rejected_gen us (Cellml.Props.C17.fault_rejected_undefined_unit_full fd h)
+  rejected_gen hw us (Cellml.Props.C17.fault_rejected_undefined_unit_full fd h)
 
-theorem fault_rejected_duplicate_component_gen (fd : FaultDoc) (us : Option Unit) (h : DuplicateComponent fd.doc) :
+theorem fault_rejected_duplicate_component_gen (fd : FaultDoc) (hw : BadWF fd = true) (us : Option Unit) (h : DuplicateComponent fd.doc) :
     ∃ e, genParse fd us = .error e :=
-  rejected_gen us (Cellml.Props.C17.fault_rejected_duplicate_component_full fd h)
+  rejected_gen hw us (Cellml.Props.C17.fault_rejected_duplicate_component_full fd h)
 
 /-- non-variable left-hand side (`x + 1 = …`, `3 = x`, `−x = …`) -/
-theorem fault_rejected_nonvariable_lhs_gen (fd : FaultDoc) (us : Option Unit) (h : NonVariableLhs fd) :
+theorem fault_rejected_nonvariable_lhs_gen (fd : FaultDoc) (hw : BadWF fd = true) (us : Option Unit) (h : NonVariableLhs fd) :
     ∃ e, genParse fd us = .error e :=
-  rejected_gen us (Cellml.Props.C17.fault_rejected_nonvariable_lhs fd h)
+  rejected_gen hw us (Cellml.Props.C17.fault_rejected_nonvariable_lhs fd h)
 
 /-- second or higher derivative on the left-hand side -/
-theorem fault_rejected_higher_order_lhs_gen (fd : FaultDoc) (us : Option Unit) (h : HigherOrderLhs fd) :
+theorem fault_rejected_higher_order_lhs_gen (fd : FaultDoc) (hw : BadWF fd = true) (us : Option Unit) (h : HigherOrderLhs fd) :
     ∃ e, genParse fd us = .error e :=
-  rejected_gen us (Cellml.Props.C17.fault_rejected_higher_order_lhs fd h)
+  rejected_gen hw us (Cellml.Props.C17.fault_rejected_higher_order_lhs fd h)
 
 /-- units defined inside a component (unsupported feature) -/
-theorem fault_rejected_component_units_gen (fd : FaultDoc) (us : Option Unit) (h : HasComponentUnits fd) :
+theorem fault_rejected_component_units_gen (fd : FaultDoc) (hw : BadWF fd = true) (us : Option Unit) (h : HasComponentUnits fd) :
     ∃ e, genParse fd us = .error e :=
-  rejected_gen us (Cellml.Props.C17.fault_rejected_component_units fd h)
+  rejected_gen hw us (Cellml.Props.C17.fault_rejected_component_units fd h)
 
 /-- reactions (unsupported feature) -/
-theorem fault_rejected_reaction_gen (fd : FaultDoc) (us : Option Unit) (h : HasReaction fd) :
+theorem fault_rejected_reaction_gen (fd : FaultDoc) (hw : BadWF fd = true) (us : Option Unit) (h : HasReaction fd) :
     ∃ e, genParse fd us = .error e :=
-  rejected_gen us (Cellml.Props.C17.fault_rejected_reaction fd h)
+  rejected_gen hw us (Cellml.Props.C17.fault_rejected_reaction fd h)
 
 /-- the two schema rules on variables that are modelled -/
-theorem fault_rejected_schema_variable_gen (fd : FaultDoc) (us : Option Unit) (h : SchemaViolation fd) :
+theorem fault_rejected_schema_variable_gen (fd : FaultDoc) (hw : BadWF fd = true) (us : Option Unit) (h : SchemaViolation fd) :
     ∃ e, genParse fd us = .error e :=
-  rejected_gen us (Cellml.Props.C17.fault_rejected_schema_variable fd h)
+  rejected_gen hw us (Cellml.Props.C17.fault_rejected_schema_variable fd h)
 
-theorem fault_rejected_units_duplicate_gen (fd : FaultDoc) (us : Option Unit) (h : ¬ (fd.udefs.map (·.name)).Nodup) :
+theorem fault_rejected_units_duplicate_gen (fd : FaultDoc) (hw : BadWF fd = true) (us : Option Unit) (h : ¬ (fd.udefs.map (·.name)).Nodup) :
     ∃ e, genParse fd us = .error e :=
-  rejected_gen us (Cellml.Props.C17.fault_rejected_units_duplicate fd h)
+  rejected_gen hw us (Cellml.Props.C17.fault_rejected_units_duplicate fd h)
 
-theorem fault_rejected_units_builtin_override_gen (fd : FaultDoc) (us : Option Unit) (d : Units.UDef) (hd : d ∈ fd.udefs)
+theorem fault_rejected_units_builtin_override_gen (fd : FaultDoc) (hw : BadWF fd = true) (us : Option Unit) (d : Units.UDef) (hd : d ∈ fd.udefs)
     (h : Cellml.Gen.cellmlUnits.contains d.name = true) :
     ∃ e, genParse fd us = .error e :=
-  rejected_gen us (Cellml.Props.C17.fault_rejected_units_builtin_override fd d hd h)
+  rejected_gen hw us (Cellml.Props.C17.fault_rejected_units_builtin_override fd d hd h)
 
 /-- non-zero offset (unsupported feature) -/
-theorem fault_rejected_units_offset_gen (fd : FaultDoc) (us : Option Unit) (d : Units.UDef) (hd : d ∈ fd.udefs) (hb : d.base = false)
+theorem fault_rejected_units_offset_gen (fd : FaultDoc) (hw : BadWF fd = true) (us : Option Unit) (d : Units.UDef) (hd : d ∈ fd.udefs) (hb : d.base = false)
     (e : Units.UnitElem) (he : e ∈ d.elems) (o : String) (ho : e.offset = some o) (q : Rat)
     (hq : Decimal.parse o = some q) (hne : q ≠ 0) (hden : q.den < 2 ^ 1075) :
     ∃ e, genParse fd us = .error e :=
-  rejected_gen us (Cellml.Props.C17.fault_rejected_units_offset fd d hd hb e he o ho q hq hne hden)
+  rejected_gen hw us (Cellml.Props.C17.fault_rejected_units_offset fd d hd hb e he o ho q hq hne hden)
 
 /-- dangling reference: a `<unit>` refers to a name that is neither built in nor defined -/
-theorem fault_rejected_units_dangling_gen (fd : FaultDoc) (us : Option Unit) (d : Units.UDef) (hd : d ∈ fd.udefs) (hb : d.base = false)
+theorem fault_rejected_units_dangling_gen (fd : FaultDoc) (hw : BadWF fd = true) (us : Option Unit) (d : Units.UDef) (hd : d ∈ fd.udefs) (hb : d.base = false)
     (e : Units.UnitElem) (he : e ∈ d.elems) (h1 : Cellml.Gen.cellmlUnits.contains e.units = false)
     (h2 : e.units ∉ fd.udefs.map (·.name)) :
     ∃ e, genParse fd us = .error e :=
-  rejected_gen us (Cellml.Props.C17.fault_rejected_units_dangling fd d hd hb e he h1 h2)
+  rejected_gen hw us (Cellml.Props.C17.fault_rejected_units_dangling fd d hd hb e he h1 h2)
 
 /-- cyclic definitions: a non-empty group of definitions each referring to a member of the group -/
-theorem fault_rejected_units_cycle_gen (fd : FaultDoc) (us : Option Unit) (cyc : List Units.UDef) (hne : cyc ≠ [])
+theorem fault_rejected_units_cycle_gen (fd : FaultDoc) (hw : BadWF fd = true) (us : Option Unit) (cyc : List Units.UDef) (hne : cyc ≠ [])
     (h : ∀ d ∈ cyc, d ∈ fd.udefs ∧ d.base = false ∧ ∃ e ∈ d.elems, ∃ d' ∈ cyc, e.units = d'.name) :
     ∃ e, genParse fd us = .error e :=
-  rejected_gen us (Cellml.Props.C17.fault_rejected_units_cycle fd cyc hne h)
+  rejected_gen hw us (Cellml.Props.C17.fault_rejected_units_cycle fd cyc hne h)
 
 /-! ## 3. Non-vacuity -/
 
@@ -185,7 +190,7 @@ open Cellml.Props.C01 (relayDoc relayL)
 /-- the valid relay document goes through the generated `parse` -/
 example (us : Option Unit) : ∃ ps, genParse relayFd us = .ok ps ∧ ps.flat = some (relayL.flat relayDoc) := by
   have hr : loadFull relayFd = .ok (relayL.flat relayDoc) := relay_loadFull
-  rcases load_total_gen relayFd us with ⟨ps, F, h1, h2, h3⟩ | ⟨e, _, e', h', _⟩
+  rcases load_total_gen relayFd rfl us with ⟨ps, F, h1, h2, h3⟩ | ⟨e, _, e', h', _⟩
   · rw [hr] at h3; rw [← Except.ok.inj h3] at h2; exact ⟨ps, h1, h2⟩
   · rw [hr] at h'; exact nomatch h'
 
@@ -193,7 +198,41 @@ example (us : Option Unit) : ∃ ps, genParse relayFd us = .ok ps ∧ ps.flat = 
 example (us : Option Unit) :
     ∃ e, genParse { doc := variant (gateV .out) .out [yEq] [] [k1, k2], udefs := [mVdef], reactions := [0] } us
       = .error e :=
-  fault_rejected_both_sources_gen _ us (connHas_of_b (fun f => f == some (.out, .out)) (fun f h => by simpa using h)
+  fault_rejected_both_sources_gen _ rfl us (connHas_of_b (fun f => f == some (.out, .out)) (fun f h => by simpa using h)
     (by decide +kernel))
+
+/-! ## 4. Bad left-hand sides: refused by the GENERATED `Model.add_equation` inside the generated `_add_maths` -/
+
+open Cellml.Tie.PMathsWalk (genMathsWalkStage)
+
+/-- `y + 1 mV = 3 mV` after the first equation of `gate`: the generated walk transpiles it, the generated `add_equation`
+    raises ValueError -/
+example (us : Option Unit) :
+    ∃ e, genParse { relayFd with badEqs := [⟨0, 1, .nonvar (.add (.var "y") (.num 1 "mV")), .num 3 "mV"⟩] } us = .error e :=
+  fault_rejected_nonvariable_lhs_gen _ rfl us ⟨_, List.mem_cons_self, _, rfl⟩
+
+/-- `d²y/dv² = 3 mV` -/
+example (us : Option Unit) :
+    ∃ e, genParse { relayFd with badEqs := [⟨0, 0, .higher "y" "v" 2, .num 3 "mV"⟩] } us = .error e :=
+  fault_rejected_higher_order_lhs_gen _ rfl us ⟨_, List.mem_cons_self, _, _, _, rfl, by decide⟩
+
+/-- the relay document without the equation of `gate`, and `y = 3 mV` listed as a BAD equation (`nonvar (.var "y")`) -/
+def misfiledDoc : FaultDoc :=
+  { doc := { relayDoc with comps := relayDoc.comps.map (fun c => if c.name == "gate" then { c with eqs := [] } else c) }
+    udefs := relayFd.udefs
+    badEqs := [⟨0, 0, .nonvar (.var "y"), .num 3 "mV"⟩] }
+
+def isOk {ε α : Type} : Except ε α → Bool
+  | .ok _ => true
+  | .error _ => false
+
+/-- **the hypothesis `BadWF` cannot be dropped**: a `nonvar` left-hand side that IS a variable is an ordinary equation for
+    python (and for the generated `add_equation`: the stage succeeds), while the hand model's stage (`C17.badEqErr`)
+    refuses it. `C17.BadLhs.nonvar` is documented as "neither a variable nor a derivative"; this document is outside. -/
+theorem badWF_needed :
+    BadWF misfiledDoc = false ∧ (∃ e, (parseView misfiledDoc).addMaths { loaded := some relayL } = .error e) ∧
+    isOk (genMathsWalkStage misfiledDoc { loaded := some relayL }) = true := by
+  refine ⟨rfl, ⟨_, rfl⟩, ?_⟩
+  decide +kernel
 
 end Cellml.Props.C17Gen
